@@ -34,7 +34,7 @@ def run_keys(ctx, pt):
     bl = H.blocklen(a)
     ctx.shape((a, (kl > bl) - (kl < bl)))
     for key in (ramp(kl, 3, 1), expander(kl, 1)):
-        for m in (b'', b'abc', ramp(bl, 5, 2), expander(bl + 1, 2)):
+        for m in (b'', b'abc', ramp(bl, 5, 2), expander(bl + 1, 2)) + ((expander(5 * bl - 1, 4),) if kl in (0, 1, bl, bl + 1, 3 * bl) else ()):
             r = ctx.attempt(lambda: HMAC(H.make(a), key)(m))
             cls = 'long-key' if kl > bl else ('block-key' if kl == bl else 'short-key')
             ctx.eq('C13/%s/%s' % (a, cls), r, ('ok', rfc2104(a, key, m)))
@@ -89,7 +89,7 @@ def selftest():
 def subchecks():
     return [
         Sub('key-lengths', pts_keys, run_keys, engine='P',
-            bound='13 hashes (MD4, MD5, SHA-1, SHA-224/256/384/512, SHA-512/224, SHA-512/256, BLAKE-224/256/384/512) x every key length 0..3 blocks (quick: 17 lengths around 0, the digest size, 1, 2 and 3 blocks) x 2 key patterns x 4 messages (empty, 3 bytes, one block, one block+1)'),
+            bound='13 hashes (MD4, MD5, SHA-1, SHA-224/256/384/512, SHA-512/224, SHA-512/256, BLAKE-224/256/384/512) x every key length 0..3 blocks (quick: 17 lengths around 0, the digest size, 1, 2 and 3 blocks) x 2 key patterns x 4 messages (empty, 3 bytes, one block, one block+1; 5 blocks-1 at 5 key lengths)'),
         hsub('setkey-histories', systems, lambda tier: 3 if tier == 'quick' else 4,
              bound='one HMAC object per hash (quick: 5 hashes), events setkey(short/exact/long/empty/2 blocks) and two MACs, all histories to depth 3 (thorough 4), state = (key class, stored key)'),
     ]
